@@ -229,6 +229,12 @@ def w_align(ctx, rng, i):
         else:
             s, tg = tx.pwa_pair(rng)
             cls = CachedPWA if kind == "PiecewiseAffine" else PythonPWA
+            if rng.random() < 0.35:
+                # the same mesh in any unit (metres for a sub-millimetre object ... map coordinates)
+                unit = 10.0 ** rng.uniform(-6, 3)
+                s = ms.TriMesh(s.points * unit, trilist=s.trilist)
+                tg = ms.PointCloud(tg.points * unit)
+                opts["unit"] = "small" if unit < 1e-2 else "large" if unit > 30 else "unit"
             if rng.random() < 0.5:
                 s = ms.PointCloud(s.points)      # PWA triangulates a bare point cloud itself
             if rng.random() < 0.4:
@@ -240,7 +246,7 @@ def w_align(ctx, rng, i):
             t = cls(s, tg)
         # retarget once: the same judges run at the end of set_target
         new = t.target.copy()
-        new.points = new.points + rng.normal(scale=0.05, size=new.points.shape)
+        new.points = new.points + rng.normal(scale=0.05, size=new.points.shape) * float(np.abs(t.source.points).max()) / tx.BOX
         okfold = True
         if kind != "ThinPlateSplines":
             tl = np.asarray(t.source.trilist)
@@ -259,7 +265,8 @@ def w_align(ctx, rng, i):
         if rng.random() < 0.3:
             # any overall size and position: unit-normalised shapes, pixel coordinates of large images, far from the origin
             sc = 10.0 ** rng.uniform(-2, 3)
-            src = src * sc + rng.uniform(-1, 1, d) * sc * 10.0 * 10.0 ** rng.uniform(0, 1.3)     # offset up to ~20x the extent (conditioning stays moderate)
+            far = 1.3 if kind == "AlignmentAffine" else 5.0       # map coordinates: up to 1e6 extents away (the affine fit squares the conditioning: up to ~200)
+            src = src * sc + rng.uniform(-1, 1, d) * sc * 10.0 * 10.0 ** rng.uniform(0, far)
         int_src = bool(rng.random() < 0.25)
         if int_src:
             # landmark coordinates are often integer pixel positions: integer-typed sources are ordinary input
@@ -289,10 +296,17 @@ def w_align(ctx, rng, i):
             # the affine fit goes through the normal equations: allow for their conditioning
             a_h = np.hstack([src, np.ones((len(src), 1))])
             cond = np.linalg.cond(a_h / np.abs(a_h).max(axis=0))
-            rtol = max(1e-7, 1e-13 * cond ** 2)
+            # the affine fit goes through the normal equations (condition number squared); the other families centre the data first
+            rtol = max(1e-7, 1e-13 * cond ** 2) if kind == "AlignmentAffine" else max(1e-9, 3e-14 * cond)
             if not (e <= rtol * max(1.0, np.abs(tr).max(), np.abs(tgt).max())) or not (t.alignment_error() <= rtol * max(1.0, np.abs(tgt).max()) * np.sqrt(len(src))):
                 ctx.fail("family_member_not_recovered", cls=kind, mech=str(sorted(opts.items())), err=float(e))
         disturb(ctx, rng, t, src, tgt, opts)
+        if rng.random() < 0.3:
+            # the caller refreshes the coordinates of the target object it handed over (in place) and hands the same object over again
+            L3, tr3 = family_member(rng, kind, d, opts)
+            T.points[...] = (src @ L3.T + tr3 + (rng.normal(scale=noise, size=src.shape) if noise else 0)).astype(T.points.dtype)
+            t.set_target(T)       # judged by the set_target tap against the new coordinates
+            ctx.bump("retargets_with_the_held_object_edited_in_place")
         # and a retarget with another synthesised target
         L2, tr2 = family_member(rng, kind, d, opts)
         tgt2 = src @ L2.T + tr2 + (rng.normal(scale=noise, size=src.shape) if noise else 0)
